@@ -1673,4 +1673,6 @@ DEFAULT_MODELS[r'^std::option::Option::<T>::is_some$'] = m_is_variant('Some')
 DEFAULT_MODELS[r'^std::option::Option::<T>::is_none$'] = m_is_variant('None')
 DEFAULT_MODELS[r'^std::result::Result::<T, E>::is_ok$'] = m_is_variant('Ok')
 DEFAULT_MODELS[r'^std::result::Result::<T, E>::is_err$'] = m_is_variant('Err')
+DEFAULT_MODELS[r'^std::ops::ControlFlow::<B, C>::is_break$'] = m_is_variant('Break')
+DEFAULT_MODELS[r'^std::ops::ControlFlow::<B, C>::is_continue$'] = m_is_variant('Continue')
 del DEFAULT_MODELS[r'^std::option::Option::<T>::is_some$|^std::result::Result::<T, E>::is_ok$']
